@@ -1,8 +1,8 @@
 """Run catalogue mutants (notes/mutants.py) in memory against the checks: tools/mut.py [Cxx ...] [-v]"""
 import sys, os, io, contextlib
-sys.path.insert(0, '/verif'); sys.path.insert(0, '/verif/notes')
+sys.path.insert(0, '/verif'); 
 sys.dont_write_bytecode = True
-from mutants import M
+from gsa.corpus.mutants import M
 from gsa.driver import run_property
 props = [a for a in sys.argv[1:] if a.startswith('C')]
 verbose = '-v' in sys.argv
